@@ -74,86 +74,12 @@ theorem stringize_eq_spec (hash : Tok) (arg : List Tok) (h : ∀ t ∈ arg, strS
   simp only [String.toList_append, key, escChars]
   rfl
 
-/-! ## `subst` with a pure pre-expander: the cache `arg->expanded` and the state disappear -/
+/-! ## `subst` with a pure pre-expander: the cache `arg->expanded` only ever holds `full toks` -/
 
 /-- name, `is_va_args`, tokens -/
 abbrev PArg := String × Bool × List Tok
 
 def core (a : MacroArg) : PArg := (a.name, a.isVa, a.toks)
-
-def findArgP (args : List PArg) (t : Option Tok) : Option PArg :=
-  match t with
-  | none => none
-  | some t => args.find? (fun a => a.1 == t.text)
-
-def hasVarargsP (args : List PArg) : Bool :=
-  match args.find? (fun a => a.1 == ChibiVerif.Gen.PP.hasVarargsName) with
-  | some a => !a.2.2.isEmpty
-  | none => false
-
-/-- `substLoop` when the pre-expander is the pure function `full` (same arms, same order) -/
-def substPure (lx : String → LexOne) (full : List Tok → List Tok) (isObj : Bool) :
-    Nat → List PArg → List Tok → List Tok → Except Err (List Tok)
-  | _, _, [], acc => .ok acc.reverse
-  | 0, _, _ :: _, _ => .error .fuel
-  | n + 1, args, tok :: rest, acc =>
-    if tok.text == "#" && !isObj then
-      match findArgP args rest.head? with
-      | none => .error .hashNotParam
-      | some a => substPure lx full isObj n args (rest.drop 1) (stringize tok a.2.2 :: acc)
-    else
-    match (if tok.text == "," && textIs rest.head? "##" then (findArgP args (rest.drop 1).head?).filter (·.2.1) else none) with
-    | some a =>
-      if a.2.2.isEmpty then substPure lx full isObj n args (rest.drop 2) acc
-      else substPure lx full isObj n args (rest.drop 1) (tok :: acc)
-    | none =>
-    if tok.text == "##" then
-      match acc with
-      | [] => .error .pasteAtStart
-      | cur :: acc' =>
-        match rest with
-        | [] => .error .pasteAtEnd
-        | nxt :: rest' =>
-          match findArgP args (some nxt) with
-          | some a =>
-            match a.2.2 with
-            | [] => substPure lx full isObj n args rest' acc
-            | t0 :: ts =>
-              match paste lx cur t0 with
-              | .error e => .error e
-              | .ok p => substPure lx full isObj n args rest' (ts.reverse ++ p :: acc')
-          | none =>
-            match paste lx cur nxt with
-            | .error e => .error e
-            | .ok p => substPure lx full isObj n args rest' (p :: acc')
-    else
-    match findArgP args (some tok) with
-    | some a =>
-      if textIs rest.head? "##" then
-        match rest.drop 1 with
-        | [] => .error .pasteAtEnd
-        | rhs :: rest3 =>
-          match a.2.2 with
-          | [] =>
-            match findArgP args (some rhs) with
-            | some a2 => substPure lx full isObj n args rest3 (a2.2.2.reverse ++ acc)
-            | none => substPure lx full isObj n args rest3 (rhs :: acc)
-          | _ :: _ =>
-            substPure lx full isObj n args rest ((setHeadFlags a.2.2 tok.atBol tok.hasSpace).reverse ++ acc)
-      else
-        substPure lx full isObj n args rest ((setHeadFlags (full a.2.2) tok.atBol tok.hasSpace).reverse ++ acc)
-    | none =>
-      if tok.text == "__VA_OPT__" && textIs rest.head? "(" then
-        match readMacroArgOne true 0 (rest.drop 1) with
-        | .error e => .error e
-        | .ok (content, r) =>
-          if hasVarargsP args then
-            match substPure lx full false n args content [] with
-            | .error e => .error e
-            | .ok out => substPure lx full isObj n args (r.drop 1) (out.reverse ++ acc)
-          else substPure lx full isObj n args (r.drop 1) acc
-      else
-        substPure lx full isObj n args rest (tok :: acc)
 
 /-- every cached expansion is the pure expansion of the argument -/
 def CacheOK (full : List Tok → List Tok) (args : List MacroArg) : Prop :=
@@ -170,16 +96,6 @@ theorem find_core (args : List MacroArg) (s : String) :
     · have h' : (a.name == s) = false := by simpa using h
       simp only [core, h'] at ih ⊢
       exact ih
-
-theorem findArgP_core (args : List MacroArg) (t : Option Tok) :
-    findArgP (args.map core) t = (findArg args t).map core := by
-  cases t with
-  | none => rfl
-  | some t => simp only [findArgP, findArg, find_core]
-
-theorem hasVarargsP_core (args : List MacroArg) : hasVarargsP (args.map core) = hasVarargs args := by
-  simp only [hasVarargsP, hasVarargs, find_core]
-  cases args.find? (fun a => a.name == ChibiVerif.Gen.PP.hasVarargsName) <;> simp [core]
 
 theorem setExpanded_core : ∀ (args : List MacroArg) (n : String) (e : List Tok),
     (setExpanded args n e).map core = args.map core := by
@@ -227,42 +143,5 @@ theorem cacheOK_setExpanded {full : List Tok → List Tok} : ∀ {args : List Ma
 
 /-- the pre-expander of the theorem: a pure function of the argument's tokens -/
 def purePP (full : List Tok → List Tok) : PreExpand := fun st ts => .ok (full ts, st)
-
-/-- the model's answer and the pure loop's answer agree -/
-def PureRes (full : List Tok → List Tok) (argsP : List PArg) (pureRes : Except Err (List Tok)) :
-    Except Err (List Tok × List MacroArg × St) → Prop
-  | .ok (out, args', _) => pureRes = .ok out ∧ CacheOK full args' ∧ args'.map core = argsP
-  | .error e => pureRes = .error e
-
-theorem substLoop_pure (lx : String → LexOne) (full : List Tok → List Tok) :
-    ∀ (fuel : Nat) (isObj : Bool) (st : St) (args : List MacroArg) (body acc : List Tok), CacheOK full args →
-      PureRes full (args.map core) (substPure lx full isObj fuel (args.map core) body acc)
-        (substLoop lx (purePP full) isObj fuel st args body acc) := by
-  intro fuel
-  induction fuel with
-  | zero =>
-    intro isObj st args body acc hc
-    cases body with
-    | nil => simp [substLoop, substPure, PureRes, hc]
-    | cons t r => simp [substLoop, substPure, PureRes]
-  | succ n ih =>
-    intro isObj st args body acc hc
-    cases body with
-    | nil => simp [substLoop, substPure, PureRes, hc]
-    | cons tok rest =>
-      unfold substLoop substPure
-      simp only [findArgP_core, hasVarargsP_core]
-      by_cases h1 : (tok.text == "#" && !isObj) = true
-      · simp only [h1, if_true]
-        cases hf : findArg args rest.head? with
-        | none => simp [PureRes]
-        | some a => simpa [core] using ih isObj st args (rest.drop 1) (stringize tok a.toks :: acc) hc
-      · simp only [h1, Bool.false_eq_true, if_false]
-        by_cases h2 : (tok.text == "," && textIs rest.head? "##") = true
-        · simp only [h2, if_true]
-          cases hf : findArg args (rest.drop 1).head? with
-          | none => sorry
-          | some a => sorry
-        · sorry
 
 end ChibiVerif.PP
